@@ -44,6 +44,13 @@ def check_C16(report, tier, seed):
                    "{/,+,#,$share,a,b,''}, zero aliases, bound ids; settings drawn around each packet's encoded size; distinct by (settings, packet)")
     gv.theorem_obligations(report, "GV/Props/C16.lean", "GV.Props.C16", audit=True)
     S.suite_validate(report, tier, seed, "C16")
+    import suites_engine as E
+    walks = E.run_walks(seed, tier, "engine-c16", 120, 4000, profile=lambda i: "mpstight" if i % 2 == 0 else "default")
+    corr_ok = E.correspondence(report, walks, "C16")
+    mon_ok = E.monitor(report, walks, "C16")
+    if not corr_ok and mon_ok:
+        more = E.run_walks(seed + 1, tier, "engine-c16-search", 1200, 4000, replay_model=False, profile=lambda i: "mpstight")
+        E.monitor(report, more, "C16", label="search")
 
 
 ENGINE_RULE = ("state-aware random walks over the engine: user publish/subscribe/unsubscribe/disconnect, open/close, service with "
@@ -112,6 +119,7 @@ def check_C19(report, tier, seed):
                    "base>max, jitter none/uniform, 1..70 consecutive waits, then a connection that succeeds and ends; distinct by script")
     gv.theorem_obligations(report, "GV/Props/C19.lean", "GV.Props.C19", audit=True)
     S.suite_backoff(report, tier, seed, "C19")
+    S.suite_stability(report, tier, seed, "C19")
 
 
 def check_C12(report, tier, seed):
